@@ -15,6 +15,7 @@ Modelled(T, cfg) ==
   /\ \A c \in 1..Len(Cols(T)) : Present(TextsOf(Cols(T)[c], cfg)) # <<>>
   /\ \A j \in 1..Len(T.labels) : \A r \in 1..Len(T.labels[j]) : ~Missing(CellText(T.labels[j][r], cfg.filtered))
   /\ NRowsT(T) >= 1 /\ Len(T.data) >= 1
+  /\ \A c \in 1..Len(Cols(T)) : ColumnKind(TextsOf(Cols(T)[c], cfg)) = "bool" => \A i \in 1..Len(Cols(T)[c]) : ~Missing(TextsOf(Cols(T)[c], cfg)[i])        \* a Boolean-typed column with a blank cell makes genfromtxt fall back to one array type for the whole table
 Ragged(ev) == LET m == ImportAsBuilt(ev.lines, ev.T, ev.cfg) IN m.k = "err" /\ m.why = "ragged"          \* genfromtxt drops or pads such rows: outside the typing model
 SameOutcome(m, r) == IF m.k = "err" THEN r.k = "err" ELSE r = m
 LossClause(T, cfg) ==
